@@ -132,6 +132,13 @@ MoveProperty == \E x \in Targets : \E i \in 1..Len(PropsOf(heap[x])) :
   /\ ~HasProp(heap[x], a \o "_moved")
   /\ Step(Op("moveprop", x, <<a, a \o "_moved">>),
           [heap EXCEPT ![x] = MoveProp(@, a, a \o "_moved")], NoOutcome)
+(* (on the element instances only: a class and its subclasses share the element OBJECTS of *)
+(* inherited properties, so a change below one of them is a change below all of them)      *)
+SetPropertyDefault == \E x \in {"E", "N"} : \E i \in 1..Len(PropsOf(heap[x])) :
+  LET a == PropsOf(heap[x])[i].attr IN
+  /\ PropsOf(heap[x])[i].elem.cls \in {"String", "AllOf"}      \* a string default fits these
+  /\ Step(Op("setpropdefault", x, <<a, JStr("d")>>),
+          [heap EXCEPT ![x] = SetPropDefault(@, a, JStr("d"))], NoOutcome)
 ToggleReq == \E x \in Targets : \E i \in 1..Len(PropsOf(heap[x])) :
   Step(Op("togglereq", x, <<PropsOf(heap[x])[i].attr, 0>>),
        [heap EXCEPT ![x] = ToggleRequired(@, PropsOf(heap[x])[i].attr)], NoOutcome)
@@ -140,7 +147,7 @@ Validate == \E x \in Targets : \E i \in 1..Len(HeapValues) :
        [heap EXCEPT ![x] = ValidateWrites(@, HeapValues[i])],
        ValidateOutcome(heap[x], HeapValues[i]))
 
-Next == SetKeyword \/ ClearKeyword \/ PutProperty \/ UpdateProperty \/ DelProperty \/ MoveProperty \/ SetElements \/ ToggleReq \/ Validate
+Next == SetKeyword \/ ClearKeyword \/ PutProperty \/ UpdateProperty \/ DelProperty \/ MoveProperty \/ SetElements \/ SetPropertyDefault \/ ToggleReq \/ Validate
 Spec == Init /\ [][Next]_vars
 
 (* design-level claims on the model *)
